@@ -442,6 +442,8 @@ pub trait ArchDrv<W>: Sync {
     /// `borrow(key)` then `component(_mut)` on column `col`; runs `k` while the guard is held.
     fn with_bcomp(&self, w: &W, key: Key, col: usize, mutable: bool, k: &mut dyn FnMut(Obs)) -> bool;
     fn replace_with_clone(&self, w: &mut W);
+    /// `Archetype::clone()` through `&self`, result dropped at once.
+    fn clone_and_drop(&self, w: &W);
     fn replace_with_capacity(&self, w: &mut W, cap: usize);
     #[cfg(feature = "events")]
     fn created(&self, w: &W) -> Vec<Bits>;
@@ -717,6 +719,10 @@ where
     fn replace_with_clone(&self, w: &mut W) {
         let c = w.archetype::<A>().clone();
         *w.archetype_mut::<A>() = c;
+    }
+    fn clone_and_drop(&self, w: &W) {
+        let c = w.archetype::<A>().clone();
+        drop(c);
     }
     fn replace_with_capacity(&self, w: &mut W, cap: usize) {
         *w.archetype_mut::<A>() = A::with_capacity(cap);
